@@ -208,8 +208,19 @@ func c10tRun(c c10tCase) (res c10tResult) {
 		cd.ConnectionType = config.ConnTypeMuxServer
 	}
 	mgr, err := NewGRPCMuxManager(ctx, "vf-tcp", cd, c10tNoListener{}, grpc.NewServer(), log.NewNoopLogger())
+	for attempt := 0; err != nil && c.Role == "receiver" && attempt < 8; attempt++ {
+		// the port picked above may have been taken by another process in the meantime: pick another one
+		l, lerr := net.Listen("tcp", "127.0.0.1:0")
+		if lerr != nil {
+			break
+		}
+		addr = l.Addr().String()
+		_ = l.Close()
+		cd.MuxAddressInfo.ConnectionString = addr
+		mgr, err = NewGRPCMuxManager(ctx, "vf-tcp", cd, c10tNoListener{}, grpc.NewServer(), log.NewNoopLogger())
+	}
 	if err != nil {
-		res.viol = "HARNESS: NewGRPCMuxManager: " + err.Error()
+		res.inconclusive = "NewGRPCMuxManager: " + err.Error()
 		return
 	}
 	go mgr.Start()
